@@ -7,6 +7,7 @@ import (
 	"strings"
 
 	h "verif/harness"
+	"verif/models/abibytes"
 	"verif/models/keyreg"
 
 	avm "github.com/artela-network/artela-evm/vm"
@@ -325,6 +326,16 @@ func runC16(c Case, tier string) (res CaseResult) {
 		r := h.NewRNG(c.Seed)
 		a := c16Gen(h.Mix(c.Seed, 1), h.Pick(r, []string{"children", "tree", "gen"}))
 		b := c16Gen(h.Mix(c.Seed, 2), h.Pick(r, []string{"children", "tree", "gen"}))
+		if c.Seed%5 == 0 {
+			// A reaches the context-write precompile by a call kind that carries no caller identity,
+			// B (another EVM) by an ordinary CALL: whatever B leaves behind must not change A's outcome
+			payload := abibytes.Encode([]byte("k"), []byte("v"))
+			kind := h.Pick(r, []byte{h.STATICCALL, h.DELEGATECALL, h.CALLCODE})
+			a = &c16Tx{world: h.BaseWorld([][]byte{c14Last(kind, addrCtxWrite, 100000, h.Shanghai)}), env: h.EnvSpec{Fork: h.Shanghai},
+				txs: []h.TxSpec{{Entry: h.ECall, From: h.Sender, To: h.ContractAddr(0), Input: payload, Gas: 3_000_000}}, desc: kindName(kind) + " to the context-write precompile"}
+			b = &c16Tx{world: h.BaseWorld([][]byte{c14Last(h.CALL, addrCtxWrite, 100000, h.Shanghai)}), env: h.EnvSpec{Fork: h.Shanghai},
+				txs: []h.TxSpec{{Entry: h.ECall, From: h.Sender, To: h.ContractAddr(0), Input: payload, Gas: 3_000_000}}, desc: "CALL to the context-write precompile"}
+		}
 		if r.Chance(50) {
 			// same fork, B with extra EIPs that change opcodes A may contain
 			b.env.Fork = a.env.Fork
